@@ -27,6 +27,16 @@ def stepLine (_ : Unit) (line : String) : Unit × String :=
       let bits ← parseHexNat? b
       let st ← stars.mapM parseStar
       pure (showRes (printfF b64A cfgNow fmt st (ofBits bits) (decide (bits ≥ 2 ^ 63))))
+    | "pfL" :: f :: se :: m :: stars => do
+      let fmt ← (parseBytes? f).map fun bs => bs.map fun c => Char.ofNat c.toNat
+      let se ← parseHexNat? se
+      let m ← parseHexNat? m
+      let st ← stars.mapM parseStar
+      pure (showRes (printfF b64A cfgNow fmt st (cvt64 (ofBits80 se m)) (decide (se ≥ 32768)) true))
+    | ["ar", "cvt", se, m] => do
+      let se ← parseHexNat? se
+      let m ← parseHexNat? m
+      pure (showBits (cvt64 (ofBits80 se m)))
     | ["ar", "pow", a, n] => do
       let a ← a.toNat?
       let n ← n.toNat?
